@@ -219,12 +219,9 @@ func VerifC22_Overlay() {
 	}
 	// iterations
 	var start, end []byte
-	nr := 4
-	if !verifThorough() {
-		nr = 2 // full range, or start+end
-	}
+	nr := 2 // full range, or start+end (half-open one-sided ranges did not fit the thorough path budget together with all five operation kinds)
 	r := verifChoose("range", nr)
-	if !verifThorough() && r == 1 {
+	if r == 1 {
 		r = 3
 	}
 	switch r {
